@@ -14,4 +14,5 @@ import Hls.Props.C04
 #print axioms Hls.C04.master_roundtrip_parsed
 #print axioms Hls.C04.master_fixed_point_parsed
 #print axioms Hls.C04.master_canonical_text
+#print axioms Hls.C04.master_any_layout
 #print axioms Hls.C04.example_master
